@@ -544,22 +544,25 @@ impl ScopeGraph {
 #[cfg(feature = "verif-hooks")]
 impl ScopeGraph {
     /// Verification hook (C13): one line per scope, in allocation order:
-    /// `printed|parent printed|alias>scope.ident,…|ident:kind,…`
-    /// (`@` is the root scope, `-` no parent).
+    /// `index|parent index|printed|alias>scope index.ident,…|ident:kind,…`
+    /// (`-` = no parent; `printed` is `print_scope`, `@` for the root).
     pub fn verif_c13_dump(&self) -> Vec<String> {
-        let show = |s: ScopeRef| {
-            let p = self.print_scope(s);
-            if p.is_empty() { "@".to_string() } else { p }
-        };
         let mut out = Vec::new();
         for (i, s) in self.scopes.iter().enumerate() {
             let me = ScopeRef(i);
-            let parent = s.parent.map_or("-".to_string(), show);
+            let printed = self.print_scope(me);
+            let printed = if printed.is_empty() {
+                "@".to_string()
+            } else {
+                printed
+            };
+            let parent =
+                s.parent.map_or("-".to_string(), |p| p.0.to_string());
             let imports: Vec<String> = s
                 .imports
                 .iter()
                 .map(|(alias, (_, target))| {
-                    format!("{alias}>{}.{}", show(target.scope), target.ident)
+                    format!("{alias}>{}.{}", target.scope.0, target.ident)
                 })
                 .collect();
             let decls: Vec<String> = self
@@ -567,8 +570,12 @@ impl ScopeGraph {
                 .map(|d| {
                     let kind = match &d.kind {
                         DeclarationKind::Value(ValueKind::Local, _) => "local",
-                        DeclarationKind::Value(ValueKind::Constant, _) => "const",
-                        DeclarationKind::Value(ValueKind::Context(_), _) => "ctx",
+                        DeclarationKind::Value(ValueKind::Constant, _) => {
+                            "const"
+                        }
+                        DeclarationKind::Value(ValueKind::Context(_), _) => {
+                            "ctx"
+                        }
                         DeclarationKind::Type(_) => "ty",
                         DeclarationKind::Function(_) => "fn",
                         DeclarationKind::Module => "mod",
@@ -576,12 +583,14 @@ impl ScopeGraph {
                         DeclarationKind::Enum(_) => "enum",
                         DeclarationKind::TypeParam(_) => "tparam",
                     };
-                    format!("{}:{kind}", d.name.ident)
+                    let owns = d
+                        .scope
+                        .map_or(String::new(), |s| format!("@{}", s.0));
+                    format!("{}:{kind}{owns}", d.name.ident)
                 })
                 .collect();
             out.push(format!(
-                "{}|{parent}|{}|{}",
-                show(me),
+                "{i}|{parent}|{printed}|{}|{}",
                 imports.join(","),
                 decls.join(",")
             ));
